@@ -639,6 +639,75 @@ fn dead_storage_program(rng: &mut StdRng) -> Vec<u8> {
     assemble(&items)
 }
 
+/// Values of 8..128 bits packed into words with holes between (and below) the fields, read back in parts that cut
+/// the fields, and packed again - the very same values, or the parts read back - high up in other slots (C12: what
+/// is learnt about a field in one slot is carried into every slot that holds the same value).
+fn packed_dataflow_program(rng: &mut StdRng) -> Vec<u8> {
+    let mut items = Vec::new();
+    let widths = [8usize, 16, 32, 64, 64, 128];
+    let nvals = rng.gen_range(2..5);
+    let ws: Vec<usize> = (0..nvals).map(|_| widths[rng.gen_range(0..widths.len())]).collect();
+    let mask = |bits: usize| Item::Push(vec![0xff; bits / 8]);
+    let pow2 = |off: usize| {
+        let mut v = vec![0u8; off / 8 + 1];
+        v[0] = 1 << (off % 8);
+        Item::Push(v)
+    };
+    // value i: calldataload(4 + 32 i) & mask
+    let val = |i: usize, w: usize| vec![p1((4 + 32 * i) as u8), Item::Op(0x35), mask(w), Item::Op(0x16)];
+    let nslots = rng.gen_range(2..4usize);
+    let mut placed: Vec<Vec<(usize, usize)>> = Vec::new(); // per slot: (offset, width)
+    for slot in 0..nslots {
+        // fields in ascending order with random holes; later slots sit high in the word
+        let mut pos = if slot == 0 { 8 * rng.gen_range(0..4usize) } else { 8 * rng.gen_range(8..20usize) };
+        let mut first = true;
+        let mut fields = Vec::new();
+        for i in 0..nvals {
+            if rng.gen_bool(0.3) && !(first && i + 1 == nvals) {
+                continue;
+            }
+            if pos + ws[i] > 256 {
+                break;
+            }
+            items.extend(val(i, ws[i]));
+            if pos > 0 || rng.gen_bool(0.5) {
+                items.extend([pow2(pos), Item::Op(0x02)]);
+            }
+            if !first {
+                items.push(Item::Op(0x17));
+            }
+            first = false;
+            fields.push((pos, ws[i]));
+            pos += ws[i] + 8 * [0usize, 0, 1, 4, 8][rng.gen_range(0..5)];
+        }
+        if first {
+            items.extend(val(0, ws[0]));
+            fields.push((0, ws[0]));
+        }
+        items.extend([p1(slot as u8), Item::Op(0x55)]);
+        placed.push(fields);
+    }
+    // partial reads that cut fields, stored on their own or packed high into a further slot
+    for r in 0..rng.gen_range(1..4usize) {
+        let slot = rng.gen_range(0..nslots);
+        let (off, w) = placed[slot][rng.gen_range(0..placed[slot].len())];
+        let cut = [8usize, 16, 32][rng.gen_range(0..3)].min(w);
+        let from = off + if rng.gen_bool(0.5) { 0 } else { 8 * rng.gen_range(0..=(w - cut) / 8) };
+        items.extend([p1(slot as u8), Item::Op(0x54)]);
+        if from > 0 {
+            items.extend([Item::Push(vec![(from >> 8) as u8, from as u8]), Item::Op(0x1c)]);
+        }
+        items.extend([mask(cut), Item::Op(0x16)]);
+        if rng.gen_bool(0.5) {
+            let up = 256 - cut - 8 * rng.gen_range(0..4usize);
+            items.extend([pow2(up), Item::Op(0x02)]);
+        }
+        items.extend([p1((10 + r) as u8), Item::Op(0x55)]);
+    }
+    items.push(Item::Op(0x00));
+    assemble(&items)
+}
+
 /// Programs whose accesses use literal keys of every magnitude (C06).
 fn literal_key_program(rng: &mut StdRng) -> Vec<u8> {
     if rng.gen_bool(0.25) {
@@ -923,7 +992,15 @@ pub fn run(o: &Opts) -> R<()> {
     for op in [0x37u8, 0x39] {
         for size in [1u16, 31, 32, 33, 40, 64, 65, 100, 394, 395, 400, 1000] {
             let words = (usize::from(size).min(400) + 31) / 32;
-            let mut items = vec![Item::Push(vec![(size >> 8) as u8, size as u8]), p1(4), p1(0), Item::Op(op)];
+            for form in 0..3 {
+            // the size as a literal, or computed from constants (a sum, a difference): still a constant size
+            let size_items: Vec<Item> = match form {
+                0 => vec![Item::Push(vec![(size >> 8) as u8, size as u8])],
+                1 => vec![Item::Push(vec![((size - size / 2) >> 8) as u8, (size - size / 2) as u8]), Item::Push(vec![((size / 2) >> 8) as u8, (size / 2) as u8]), Item::Op(0x01)],
+                _ => vec![p1(0x20), Item::Push(vec![((size + 0x20) >> 8) as u8, (size + 0x20) as u8]), Item::Op(0x03)],
+            };
+            let mut items = size_items;
+            items.extend([p1(4), p1(0), Item::Op(op)]);
             for w in [0usize, words.saturating_sub(2), words - 1].iter().copied().collect::<BTreeSet<usize>>() {
                 let off = 32 * w;
                 items.extend([Item::Push(vec![(off >> 8) as u8, off as u8]), Item::Op(0x51), p1(w as u8), Item::Op(0x55)]);
@@ -935,7 +1012,18 @@ pub fn run(o: &Opts) -> R<()> {
                 oks += 1;
             }
             emit(&mut ws, record("ragged-copy", &code, None, &obs), "ragged-copy", &mut count);
+            }
         }
+    }
+    // 3e. packed words with holes whose fields travel: read back in part (cutting a field), and packed again, high up,
+    //     into another slot
+    for _ in 0..n_other / 6 {
+        let code = packed_dataflow_program(&mut rng);
+        let obs = observe(&code, &lim);
+        if obs.res == "ok" {
+            oks += 1;
+        }
+        emit(&mut ws, record("packed-dataflow", &code, None, &obs), "packed-dataflow", &mut count);
     }
     // 4. C11: composition of fragments with disjoint slot sets, and renumbering
     let mut compose = 0usize;
